@@ -2,7 +2,7 @@
 from contracts import flow, history, inputs
 from props.common import *  # noqa: F401,F403
 
-SIM = [f"{G}:BaseGHE._simulate_detailed", f"{G}:GHE.simulate#hybrid-body", f"{G}:GHE.simulate#hourly-body-fresh", f"{G}:GHE.simulate#hourly-body-after-another-simulation"]
+SIM = [f"{G}:BaseGHE._simulate_detailed", f"{G}:GHE.simulate#hybrid-body", f"{G}:GHE.simulate#hourly-body-fresh", f"{G}:GHE.simulate#hourly-body-after-another-simulation", f"{G}:GHE.simulate#hourly-body-array-loads"]
 GF = "ghedesigner.gfunction"
 FUNCTIONS = (SIM + [f"{G}:BaseGHE.grab_g_function#body", f"{G}:BaseGHE.compute_g_functions#body", f"{GF}:GFunction.borehole_radius_correction", f"{G}:BaseGHE.combine_sts_lts", f"{G}:GHE.size", f"{G}:GHE.size#hourly", f"{S}:Bisection1D.calculate_excess", f"{S}:Bisection1D.initialize_ghe", f"{S}:RowWiseModifiedBisectionSearch.initialize_ghe#body",
                     f"{S}:Bisection1D.__init__#search-nocap", f"{S}:Bisection1D.__init__#search-cap", f"{S}:Bisection1D.__init__#nosearch"]
@@ -16,6 +16,9 @@ CASE_TIMEOUT = 400
 LEVEL = "other"
 
 
+MODULE_STATE_SCOPE = "package"  # the design pipeline runs through every module: the no-module-level-state scan covers the whole package
+
+
 def lemmas():
     return history.LEMMAS
 
@@ -27,7 +30,9 @@ ASSUMPTIONS = [A_REAL, A_ENGINE, A_DET + " - 'bit-identical' is equality of the 
                "frames are proved for the parameter shapes of the sidecars (manager: all configuration slots; GHE: configuration + result fields); attributes the shapes do not mention are outside the statement"]
 NOT_PROVED = ["the composition 'every sequence of API calls ending in the same configuration gives the same design' is a meta-level induction over the call sequence from the two lemmas and the "
               "per-function frames/postconditions; the bounded runs compare real histories bit for bit",
-              "module-level or class-level caches: none exist on the unchanged tree; one introduced by a change puts the function outside the verifier's subset (NO-VERDICT, exit 2) unless a bounded run sees it",
+              "module-level or class-level state: a scan of every module of the package (evidence: module_state_scan) decides syntactically, by name, that no function of the package rebinds or mutates a module-level binding, "
+              "a class attribute, a mutable default argument or an attribute of an imported module, and that nothing is memoised by decorator; a mutation through an alias of a module-level object is "
+              "not seen by that scan; where the scan finds such state the module is outside the verifier's subset (NO-VERDICT, exit 2, never a VIOLATION by itself: a memo keyed by everything the result depends on is harmless) (bounded runs: a sibling design differing in one thermal property is compared with the same design computed by a fresh interpreter)",
               "GFunction.g_function_interpolation caches its interpolation table with the kind/fill_value of the first call (body out of reach): bounded runs only"]
 EXPLANATION = ("Every function between the API and the temperatures is under a contract whose postcondition gives the result as a function of the *configuration* fields only, for arbitrary "
                "values of the residue fields, and whose frame (obligation frame/only-declared-locations-change, proved for every normal exit) names the only locations it writes: "
